@@ -16,10 +16,12 @@ package middlewares
 
 import (
 	"net/url"
+	"strings"
 
 	"github.com/gofiber/fiber/v2"
 	"github.com/versity/versitygw/metrics"
 	"github.com/versity/versitygw/s3api/controllers"
+	"github.com/versity/versitygw/s3api/utils"
 	"github.com/versity/versitygw/s3err"
 	"github.com/versity/versitygw/s3log"
 )
@@ -29,6 +31,17 @@ func DecodeURL(logger s3log.AuditLogger, mm *metrics.Manager) fiber.Handler {
 		unescp, err := url.QueryUnescape(string(ctx.Request().URI().PathOriginal()))
 		if err != nil {
 			return controllers.SendResponse(ctx, s3err.GetAPIError(s3err.ErrInvalidURI), &controllers.MetaOpts{Logger: logger, MetricsMng: mm})
+		}
+		// Bucket, key, version id and upload id become file system path
+		// elements: refuse anything that would be resolved to another
+		// location instead of being used as an opaque name.
+		if utils.HasDotSegment(unescp) {
+			return controllers.SendResponse(ctx, s3err.GetAPIError(s3err.ErrInvalidURI), &controllers.MetaOpts{Logger: logger, MetricsMng: mm})
+		}
+		for _, arg := range []string{"versionId", "uploadId"} {
+			if v := ctx.Query(arg); strings.Contains(v, "/") || v == "." || v == ".." {
+				return controllers.SendResponse(ctx, s3err.GetAPIError(s3err.ErrInvalidURI), &controllers.MetaOpts{Logger: logger, MetricsMng: mm})
+			}
 		}
 		ctx.Path(unescp)
 		return ctx.Next()
